@@ -77,6 +77,14 @@ fn near_misses(suffix: bool) -> Vec<(&'static str, bool)> {
         ("app_r+0042.log", false),
         ("app_r+00042.log", false),
         ("app_r-0042.log", false),
+        // a well-formed infix followed by more dotted text
+        ("app_r2020-01-01_00-00-00.bak.log", false),
+        ("app_r2024-05-15_12-30-10.1.log", false),
+        ("app_r00001.bak.log", false),
+        // the suffix (or .gz) in another case: other files on a case-sensitive file system
+        ("app_r00007.LOG", false),
+        ("app_r2020-01-01_00-00-00.Log", false),
+        ("app_r00001.log.GZ", false),
     ];
     if suffix {
         v.push(("app_r00001", false));
@@ -260,6 +268,8 @@ fn name_class(n: &str) -> &'static str {
         "app_r1.log" | "app_r.log" | "app_.log" | "app" => "short-infix",
         "app_r12.log" | "app_r2x.log" | "app_r2024.log" | "app_r00001_old.log" => "r+digit-fragment",
         "app_r+0042.log" | "app_r+00042.log" | "app_r-0042.log" | "app_r+0042" => "signed-number",
+        "app_r2020-01-01_00-00-00.bak.log" | "app_r2024-05-15_12-30-10.1.log" | "app_r00001.bak.log" => "infix+dotted-text",
+        "app_r00007.LOG" | "app_r2020-01-01_00-00-00.Log" | "app_r00001.log.GZ" => "suffix-in-other-case",
         "app_r00042.log" | "app_r00042" => "directory-named-like-a-log-file",
         "app_r00043.log" | "app_r00043" => "symlink-to-directory-named-like-a-log-file",
         "app_r9999-99-99_99-99-99.log" | "app_r2024-05-15_12-30-10.restart-abcd.log" | "app_r2024-05-15_12-30-10.restart-" => "timestamp-like",
